@@ -4,6 +4,10 @@ that the claimed level text and the implemented obligations stay together)."""
 import json, os, subprocess
 V = os.path.dirname(os.path.dirname(os.path.abspath(__file__)))
 CLAIMED = json.load(open(os.path.join(V, "tools", "claims.json")))
+DESCR = json.loads(subprocess.check_output([os.path.join(V, "bin", "wmcheck"), "-describe"], text=True))
+for k, v in CLAIMED.items():
+    if "text" not in v and k in DESCR:
+        v["text"] = DESCR[k]
 ids = ["C%02d" % i for i in range(1, 21)]
 checks, na = [], []
 for pid in ids:
